@@ -16,6 +16,7 @@ type Case struct {
 	HasExp bool
 	Stream string
 	WSeed  uint64 // seed of the random choice of Go number kinds for the plain flavour (0 = int64/float64)
+	Tag    string // part of the duplicate test: the same triple is kept once per tag (other number kinds)
 }
 
 var keyAlphabet = []string{"a", "b", "c", "d", "", "ké"}
@@ -28,6 +29,7 @@ var smallFlts = []float64{0, 1, 2, 3, -1, 1.5, -0.25, 2.75, 128, 0.125, 16777216
 var bigInts = []int64{1 << 53, 1<<53 + 1, 1<<53 + 2, 1<<53 + 3, -(1 << 53) - 1, 1<<53 - 1, 1 << 62, 1<<62 + 1, 1<<62 + 512, 1<<62 + 513,
 	math.MaxInt64, math.MaxInt64 - 1, math.MaxInt64 - 511, math.MaxInt64 - 512, math.MaxInt64 - 1024, math.MinInt64, math.MinInt64 + 1, math.MinInt64 + 1025,
 	1 << 54, 1<<54 + 2, 1<<54 + 6, 1e18, 1e18 + 1}
+
 // unsigned values that no int64 holds
 var bigUints = []uint64{1 << 63, 1<<63 + 1, 1<<63 + 5, 1<<63 + 2048, math.MaxUint64, math.MaxUint64 - 1, math.MaxUint64 - 2047, 1<<63 + 1<<62}
 
